@@ -81,6 +81,79 @@ theorem scanAll_safe (m : Meta) (hm : m.cols.length ≤ m.colCount) (numRows : N
   · split <;> simp [ROut.crashSite]
   · exact scanLoop_safe m.cols (destLen m) (by unfold destLen; omega) numRows 0 rest
 
+/-! ### rows scanned vs bytes received (allocation of the row consumers) -/
+
+/-- one Scan call over `cols` consumes at least the 4 length bytes of every column -/
+theorem scanCols_consumes (n : Nat) (cols : List TI) (i : Nat) (buf b : Bytes)
+    (h : scanCols n cols i buf = .ok b) : b.length + 4 * cols.length ≤ buf.length := by
+  induction cols generalizing i buf with
+  | nil => simp [scanCols] at h; subst h; simp
+  | cons col rest ih =>
+    unfold scanCols at h
+    split at h
+    · cases h
+    · rename_i h4
+      simp only [] at h
+      split at h
+      · cases h
+      · split at h
+        · cases h
+        · split at h
+          · cases h
+          · have hb2 : (if signed32 (be (buf.take 4)) < 0 then buf.drop 4
+                else (buf.drop 4).drop (signed32 (be (buf.take 4))).toNat).length + 4 ≤ buf.length := by
+              split <;> simp <;> omega
+            split at h
+            · split at h
+              · cases h
+              · split at h
+                · have := ih _ _ h
+                  simp only [List.length_cons] at *; omega
+                · cases h
+                · cases h
+            · have := ih _ _ h
+              simp only [List.length_cons] at *; omega
+
+theorem scanLoop_rows (cols : List TI) (hc : cols ≠ []) (n : Nat) (todo done : Nat) (buf : Bytes) :
+    4 * (scanLoop cols n todo done buf).rows ≤ 4 * done + buf.length := by
+  induction todo generalizing done buf with
+  | zero => simp [scanLoop, ROut.rows]
+  | succ todo ih =>
+    unfold scanLoop
+    split
+    · simp only [ROut.rows]; omega
+    · split
+      · rename_i b hb
+        have hcons := scanCols_consumes n cols 0 buf b hb
+        have hl : 1 ≤ cols.length := by
+          cases cols with
+          | nil => exact absurd rfl hc
+          | cons a r => simp
+        have := ih (done + 1) b
+        omega
+      · simp only [ROut.rows]; omega
+      · simp only [ROut.rows]; omega
+
+/-- THE ROW-COUNT BOUND: however many rows the frame announces, a consumer gets through at most one row
+per 4 bytes of row set (given at least one described column; the harness keeps the destination list
+below `destCap`) -/
+theorem rows_scanned_le_body (m : Meta) (hc : m.cols ≠ []) (numRows : Nat) (rest : Bytes) :
+    4 * (scanAll m numRows rest).rows ≤ rest.length := by
+  unfold scanAll
+  split
+  · split <;> simp [ROut.rows]
+  · simpa using scanLoop_rows m.cols hc (destLen m) numRows 0 rest
+
+/-- the allocation counter of the row consumers is within the bound for EVERY announced row count -/
+theorem consumeUnits_le_bound (m : Meta) (hc : m.cols ≠ []) (numRows : Nat) (rest : Bytes) :
+    consumeUnits m numRows rest ≤ consumeBound m rest := by
+  have h := rows_scanned_le_body m hc numRows rest
+  unfold consumeUnits consumeBound
+  have : (scanAll m numRows rest).rows ≤ rest.length / 4 := by omega
+  have h2 : ((scanAll m numRows rest).rows + 1) * (destLen m + 1) ≤ (rest.length / 4 + 1) * (destLen m + 1) :=
+    Nat.mul_le_mul_right (destLen m + 1) (Nat.succ_le_succ this)
+  omega
+
 /-! ### what a parsed ROWS frame looks like: no more described columns than announced -/
 
 def Post {α : Type} (Q : α → Prop) (p : P α) : Prop :=
